@@ -74,7 +74,12 @@ def run(prop, tier, seed):
     cj_dfs, cj_rand = [], []
     prod = lambda v: {'op': 'append', 'a': {'v': v}}
     cons = [{'op': 'popleft', 'a': {}}, {'op': 'pop', 'a': {}}, {'op': 'peekleft', 'a': {}}, {'op': 'len', 'a': {}},
-            {'op': 'getitem', 'a': {'i': 0}}, {'op': 'appendleft', 'a': {'v': 9}}]
+            {'op': 'getitem', 'a': {'i': 0}}, {'op': 'appendleft', 'a': {'v': 9}}, {'op': 'remove', 'a': {'v': 1}}, {'op': 'remove', 'a': {'v': 2}}]
+    # removal by value against a consumer of the same item: it either removes an item or reports that there is none
+    for other in ({'op': 'popleft', 'a': {}}, {'op': 'remove', 'a': {'v': 1}}, {'op': 'pop', 'a': {}}):
+        for init in ([1, 2, 1], [1], [2, 1]):
+            cfg = dict(policy='none', cull=10, limit=2 ** 30, stats=False, shared=0, kind='deque', maxlen=-1, timeout=0, busy_budget=2, init_items=init)
+            cj_dfs.append((cfg, {1: [{'op': 'remove', 'a': {'v': 1}}], 2: [other]}, 2, 60 if tier == 'quick' else 300, seed, 0))
     # a lowered maxlen against a concurrent consumer / producer: only the surplus is discarded
     for m in (1, 2):
         for other in ({'op': 'popleft', 'a': {}}, {'op': 'pop', 'a': {}}, {'op': 'append', 'a': {'v': 7}}):
